@@ -3912,7 +3912,8 @@ func (c *Compiler) getWasmGlobalValue(index wasm.Index, forceLoad bool) ssa.Valu
 	opaqueOffset := c.offset.GlobalInstanceOffset(index)
 
 	builder := c.ssaBuilder
-	if !forceLoad {
+	// A value read earlier cannot be reused when a write through another import index may have changed it.
+	if !forceLoad && !c.globalVariablesMayAlias[index] {
 		if v := builder.FindValueInLinearPath(variable); v.Valid() {
 			return v
 		}
